@@ -302,7 +302,9 @@ def schema_source_rule(ctx):
                     p = parents.get(p)
                 kept = isinstance(p, (ast.Assign, ast.Return, ast.AnnAssign, ast.ListComp, ast.List, ast.Tuple, ast.GeneratorExp, ast.comprehension, ast.keyword)) or isinstance(p, ast.Starred)
             ctx.check(ok and kept, "C06.R8", construct, n, f"`{short(gc, 60)}`: the constraints of this source are computed but not merged into the factory that is used (the JSON schema still shows them)", fi, n, detail="factory = factory.merge(get_constraints(<source>), ...)")
-        ctx.check(any(isinstance(p.get(n), ast.Call) and (dotted(p.get(n).func) or "") == "get_constraints" for fi, n, p in found["method"].get(kind, [])), "C06.R8", f"{kind}:constraints", None,
+        # ... through get_constraints(<source>), or by reading `<source>.constraints` directly (what get_constraints does for a schema that is not None)
+        ctx.check(any((isinstance(p.get(n), ast.Call) and (dotted(p.get(n).func) or "") == "get_constraints") or (isinstance(p.get(n), ast.Attribute) and p.get(n).attr == "constraints")
+                      for fi, n, p in found["method"].get(kind, [])), "C06.R8", f"{kind}:constraints", None,
                   f"{what} never reaches get_constraints() in the method compiler", None, None, detail="get_constraints(<source>)")
     # the generic-origin source is consulted under the same guard on both sides
     for side in ("schema", "method"):
